@@ -86,51 +86,53 @@ def PrevoteGuard (E : AEnv) (H : Hist) (l : LState) : Option Val → Prop
   | some v => l.lockedRound = -1 ∨ l.lockedValue = some v ∨
       ∃ vr : Round, l.lockedRound ≤ vr ∧ vr < l.round ∧ Polka E H l.height vr v
 
-/-- Transitions of a correct process `p`. -/
+def addProposal (H : Hist) (p : Addr) (h : Height) (r : Round) (v : Val) : Hist :=
+  { H with proposal := fun a h' r' w => H.proposal a h' r' w ∨ (a = p ∧ h' = h ∧ r' = r ∧ w = v) }
+
+def addPrevote (H : Hist) (p : Addr) (h : Height) (r : Round) (id : Option Val) : Hist :=
+  { H with prevote := fun a h' r' w => H.prevote a h' r' w ∨ (a = p ∧ h' = h ∧ r' = r ∧ w = id) }
+
+def addPrecommit (H : Hist) (p : Addr) (h : Height) (r : Round) (id : Option Val) : Hist :=
+  { H with precommit := fun a h' r' w => H.precommit a h' r' w ∨ (a = p ∧ h' = h ∧ r' = r ∧ w = id) }
+
+def addDecision (H : Hist) (p : Addr) (h : Height) (v : Val) : Hist :=
+  { H with decision := fun a h' w => H.decision a h' w ∨ (a = p ∧ h' = h ∧ w = v) }
+
+/-- Transitions of a correct process `p` (`l` is its local state `s.loc p`). -/
 inductive Step (E : AEnv) : Sys → Sys → Prop
   /-- `ProcessStart(r)` for a height that is not started. -/
-  | start (s : Sys) (p : Addr) (r : Round) :
-      ¬ E.byz p → (s.loc p).started = false → 0 ≤ r →
-      Step E s { s with loc := setLoc s p { s.loc p with started := true, round := r, step := .propose } }
+  | start (s : Sys) (p : Addr) (l : LState) (r : Round) :
+      ¬ E.byz p → s.loc p = l → l.started = false → 0 ≤ r →
+      Step E s ⟨s.hist, setLoc s p { l with started := true, round := r, step := .propose }⟩
   /-- `StartRound(r')` for a higher round (timeout precommit, or f+1 messages of a later round). -/
-  | newRound (s : Sys) (p : Addr) (r' : Round) :
-      ¬ E.byz p → (s.loc p).started = true → (s.loc p).round < r' →
-      Step E s { s with loc := setLoc s p { s.loc p with round := r', step := .propose } }
+  | newRound (s : Sys) (p : Addr) (l : LState) (r' : Round) :
+      ¬ E.byz p → s.loc p = l → l.started = true → l.round < r' →
+      Step E s ⟨s.hist, setLoc s p { l with round := r', step := .propose }⟩
   /-- broadcast of a proposal (no guard: safety does not depend on what is proposed). -/
-  | propose (s : Sys) (p : Addr) (v : Val) :
-      ¬ E.byz p → (s.loc p).started = true →
-      Step E s { s with hist := { s.hist with proposal := fun a h r w =>
-        s.hist.proposal a h r w ∨ (a = p ∧ h = (s.loc p).height ∧ r = (s.loc p).round ∧ w = v) } }
+  | propose (s : Sys) (p : Addr) (l : LState) (v : Val) :
+      ¬ E.byz p → s.loc p = l → l.started = true →
+      Step E s ⟨addProposal s.hist p l.height l.round v, s.loc⟩
   /-- lines 22–33, `OnTimeoutPropose`: broadcast PREVOTE, step ← prevote. -/
-  | prevote (s : Sys) (p : Addr) (id : Option Val) :
-      ¬ E.byz p → (s.loc p).started = true → (s.loc p).step = .propose →
-      PrevoteGuard E s.hist (s.loc p) id →
-      Step E s { hist := { s.hist with prevote := fun a h r w =>
-                    s.hist.prevote a h r w ∨ (a = p ∧ h = (s.loc p).height ∧ r = (s.loc p).round ∧ w = id) },
-                 loc := setLoc s p { s.loc p with step := .prevote } }
+  | prevote (s : Sys) (p : Addr) (l : LState) (id : Option Val) :
+      ¬ E.byz p → s.loc p = l → l.started = true → l.step = .propose →
+      PrevoteGuard E s.hist l id →
+      Step E s ⟨addPrevote s.hist p l.height l.round id, setLoc s p { l with step := .prevote }⟩
   /-- lines 44–46, `OnTimeoutPrevote`: broadcast PRECOMMIT nil, step ← precommit. -/
-  | precommitNil (s : Sys) (p : Addr) :
-      ¬ E.byz p → (s.loc p).started = true → (s.loc p).step = .prevote →
-      Step E s { hist := { s.hist with precommit := fun a h r w =>
-                    s.hist.precommit a h r w ∨ (a = p ∧ h = (s.loc p).height ∧ r = (s.loc p).round ∧ w = none) },
-                 loc := setLoc s p { s.loc p with step := .precommit } }
+  | precommitNil (s : Sys) (p : Addr) (l : LState) :
+      ¬ E.byz p → s.loc p = l → l.started = true → l.step = .prevote →
+      Step E s ⟨addPrecommit s.hist p l.height l.round none, setLoc s p { l with step := .precommit }⟩
   /-- lines 36–41 while step = prevote: lock, broadcast PRECOMMIT id(v), step ← precommit. -/
-  | precommitValue (s : Sys) (p : Addr) (v : Val) :
-      ¬ E.byz p → (s.loc p).started = true → (s.loc p).step = .prevote →
-      Polka E s.hist (s.loc p).height (s.loc p).round v →
-      Step E s { hist := { s.hist with precommit := fun a h r w =>
-                    s.hist.precommit a h r w ∨ (a = p ∧ h = (s.loc p).height ∧ r = (s.loc p).round ∧ w = some v) },
-                 loc := setLoc s p { s.loc p with step := .precommit, lockedValue := some v,
-                                                  lockedRound := (s.loc p).round } }
+  | precommitValue (s : Sys) (p : Addr) (l : LState) (v : Val) :
+      ¬ E.byz p → s.loc p = l → l.started = true → l.step = .prevote →
+      Polka E s.hist l.height l.round v →
+      Step E s ⟨addPrecommit s.hist p l.height l.round (some v),
+                setLoc s p { l with step := .precommit, lockedValue := some v, lockedRound := l.round }⟩
   /-- lines 49–54: decide, next height (not started), locks reset. -/
-  | commit (s : Sys) (p : Addr) (r : Round) (v : Val) :
-      ¬ E.byz p → (s.loc p).started = true →
-      PCQuorum E s.hist (s.loc p).height r v → E.valid v = true →
-      (E.byz (E.proposer (s.loc p).height r) ∨
-        s.hist.proposal (E.proposer (s.loc p).height r) (s.loc p).height r v) →
-      Step E s { hist := { s.hist with decision := fun a h w =>
-                    s.hist.decision a h w ∨ (a = p ∧ h = (s.loc p).height ∧ w = v) },
-                 loc := setLoc s p (initL ((s.loc p).height + 1)) }
+  | commit (s : Sys) (p : Addr) (l : LState) (r : Round) (v : Val) :
+      ¬ E.byz p → s.loc p = l → l.started = true →
+      PCQuorum E s.hist l.height r v → E.valid v = true →
+      (E.byz (E.proposer l.height r) ∨ s.hist.proposal (E.proposer l.height r) l.height r v) →
+      Step E s ⟨addDecision s.hist p l.height v, setLoc s p (initL (l.height + 1))⟩
 
 /-- Reachable states of the system. -/
 inductive Reach (E : AEnv) (h0 : Addr → Height) : Sys → Prop
